@@ -263,6 +263,68 @@ def job_validation(j, seed):
     return {'obligations': obs, 'candidates': cands, 'paths': len(paths)}
 
 
+def job_detuned(j, seed):
+    """A frequency inside the accepted tolerance but not exactly N * pulse frequency (quotient N + eps resp. 1/(M + eps),
+    |eps| <= 5e-9, eps symbolic): the number of rotations expanded per pulse period is N (resp. 1 for divisors) for every such eps, so
+    each slit still appears once per rotation and no opening of the covered span is missing."""
+    N, sign, nsl = j
+    from symex import core as C
+    from .symutil import fresh_run
+
+    sc, dc, cc = _load()
+    fresh_run()
+    N = Fraction(N)
+    obs, cands = [], []
+    tag = f'detuned[ratio~{N},sense={"cw" if sign < 0 else "acw"},slits={nsl}]'
+    case = {'kind': 'detuned', 'ratio': str(N), 'sign': sign, 'nslits': nsl}
+    eps = C.sym_var('eps')
+    C.CTX.assume(eps >= -Fraction(5, 10**9))
+    C.CTX.assume(eps <= Fraction(5, 10**9))
+    # the acceptance test is |round(q) - q| < 1e-8 on the quotient q (or on 1/q): detune the quotient additively
+    with C.oracle():
+        ratio = (N + eps) if N >= 1 else 1 / (1 / N + eps)
+    begins = [C.sym_var(f'b{i}') for i in range(nsl)]
+    ends = [C.sym_var(f'e{i}') for i in range(nsl)]
+    beam, phase = C.sym_var('beam'), C.sym_var('phase')
+    fp = C.sym_var('fp', sign='+')
+    for a in _valid_slits(C, begins, ends):
+        C.CTX.assume(a)
+    C.CTX.fork_timeout_ms = 5000
+
+    def run():
+        ch = _mk_chopper(sc, dc, ratio, sign, begins, ends, beam, phase, fp)
+        pf = sc.scalar(fp, unit='Hz')
+        return ch._source_phase_factor(pf), ch.time_offset_open(pulse_frequency=pf)
+
+    paths = C.explore(run, max_paths=64)
+    want = max(int(N), 1)
+    nret = 0
+    for k, p in enumerate(paths):
+        if p.inconclusive:
+            obs.append({'name': f'{tag}:path{k}', 'status': 'inconclusive', 'detail': p.inconclusive[:200], 't': 0})
+            continue
+        if p.exc is not None:
+            obs.append({'name': f'{tag}:path{k}:frequency inside the tolerance accepted', 'status': 'violated', 'detail': repr(p.exc)[:200], 't': 0})
+            m = C.solve([*C.CTX.assumptions, *p.pc])
+            cands.append(('C10:detuned:raises', {**case, 'eps': float((m.model or {}).get('eps', 0))}, repr(p.exc)[:100]))
+            continue
+        nret += 1
+        nrot, o = p.value
+        c = o
+        ob = C.prove(f'{tag}:path{k}:{want} rotation(s) per pulse period', C.R.lift(nrot) == want, pc=p.pc)
+        obs.append(ob_dict(ob))
+        if ob.status == 'violated':
+            cands.append(('C10:detuned:rotations', {**case, 'eps': float((ob.model or {}).get('eps', 0))}, f'{nrot} rotations expanded instead of {want}'))
+        ob = C.prove(f'{tag}:path{k}:{(want + 1) * nsl} openings reported (one per slit per rotation in the covered span)', C.B.const(len(o.values) == (want + 1) * nsl and len(c.values) == len(o.values)), pc=p.pc)
+        obs.append(ob_dict(ob))
+        if ob.status == 'violated':
+            m = C.solve([*C.CTX.assumptions, *p.pc])
+            cands.append(('C10:detuned:count', {**case, 'eps': float((m.model or {}).get('eps', 0))}, f'{len(o.values)} openings instead of {(want + 1) * nsl}'))
+    ob = C.prove(f'{tag}:some path returns', C.B.const(nret >= 1))
+    obs.append(ob_dict(ob))
+    return {'obligations': obs, 'candidates': cands, 'paths': len(paths)}
+
+
 def job_frequency(j, seed):
     """Accepted iff the ratio is within 1e-8 of an integer (>= 1) or of the reciprocal of one."""
     from symex import core as C
@@ -328,6 +390,7 @@ def run(chk):
     ratios = [1, 2, 3, Fraction(1, 2), Fraction(1, 3)] if chk.tier == 'quick' else [1, 2, 3, 4, 5, 8, Fraction(1, 2), Fraction(1, 3), Fraction(1, 4)]
     slits = [1, 2] if chk.tier == 'quick' else [1, 2, 3]
     jobs = [(r, s, n, 'rad', 'Hz') for r in ratios for s in (-1, 1) for n in slits]
+    run_jobs(chk, job_detuned, [(3, -1, 1), (2, 1, 1), ('1/2', 1, 1)] if chk.tier == 'quick' else [(n_, s_, 1) for n_ in (1, 2, 3, 5, '1/2', '1/3') for s_ in (-1, 1)] + [(2, 1, 2)])
     jobs += [(2, -1, 2, 'deg', 'kHz'), (1, 1, 1, 'deg', 'Hz')]
     run_jobs(chk, job_disk, jobs)
     pulses = [1, 2] if chk.tier == 'quick' else [1, 2, 3]
@@ -336,7 +399,7 @@ def run(chk):
     run_jobs(chk, job_cascade, cj)
     run_jobs(chk, job_validation, [0])
     run_jobs(chk, job_frequency, [0])
-    chk.bounds = {'ratios': [str(r) for r in ratios], 'slits': slits, 'pulses': pulses, 'angles': 'beam position, phase, slit edges: arbitrary reals (turns), slits valid',
+    chk.bounds = {'detuned': 'quotient N + eps or 1/(M + eps), |eps| <= 5e-9 symbolic, N in {1,2,3,5}, M in {2,3}', 'ratios': [str(r) for r in ratios], 'slits': slits, 'pulses': pulses, 'angles': 'beam position, phase, slit edges: arbitrary reals (turns), slits valid',
                   'validation': '2 slits with edges in [0, 2) turns and widths below one turn', 'frequency ratio': 'q in [1/8, 16]'}
     chk.stubs = ['scipp -> symsc (arange, flatten, transpose, sort by key with forking)', 'numpy pi symbolic; uuid4 real']
     chk.axioms = ['rotating disk: angle under the beam at time t is beam_position + phase - omega*t (mod one turn), from the documented time formula',
@@ -366,6 +429,25 @@ def replay_real(case):
                 return True
         return False
 
+    if kind == 'detuned':
+        N = Fraction(case['ratio'])
+        eps = case.get('eps', 0.0)
+        q = float(N) + eps if N >= 1 else 1.0 / (float(1 / N) + eps)
+        want = max(int(N), 1)
+        nsl = case['nslits']
+        for fp in (14.0, 50.0, 25.0):
+            edges = np.sort(rng.uniform(0, 2 * np.pi, size=2 * nsl))
+            ch = DiskChopper(axle_position=sc.vector([0.0, 0.0, 8.0], unit='m'), frequency=sc.scalar(case['sign'] * q * fp, unit='Hz'),
+                             beam_position=sc.scalar(0.3, unit='rad'), phase=sc.scalar(1.1, unit='rad'),
+                             slit_begin=sc.array(dims=['slit'], values=edges[0::2], unit='rad'), slit_end=sc.array(dims=['slit'], values=edges[1::2], unit='rad'))
+            pf = sc.scalar(fp, unit='Hz')
+            try:
+                n = len(ch.time_offset_open(pulse_frequency=pf))
+                if n != (want + 1) * nsl:
+                    bad.append(f'frequency {case["sign"] * q * fp!r} Hz at pulse frequency {fp} Hz (quotient {q!r}): {n} openings reported, {(want + 1) * nsl} expected ({want} rotation(s) per pulse period)')
+            except ValueError as e:
+                bad.append(f'frequency {case["sign"] * q * fp!r} Hz (quotient {q!r}, inside the 1e-8 tolerance) rejected: {str(e)[:60]}')
+        return {'reproduced': bool(bad), 'detail': '; '.join(bad[:2])}
     if kind in ('disk', 'cascade'):
         ratio = float(Fraction(case['ratio']))
         sign = case['sign']
